@@ -61,6 +61,7 @@ type Projector struct {
 	SkipPre   bool // replace the startup/auth/parameter preamble by one synthetic event (preamble rule)
 	preDone   bool
 	preMsg    M
+	held      []mem.Ev
 	// extended-protocol bookkeeping for decoding rows (valid when Parse/Bind/Execute are not pipelined)
 	stmtCols  map[string][]any
 	portals   map[string][2][]any
@@ -86,9 +87,13 @@ func (p *Projector) Feed(e mem.Ev) {
 	if p.SkipPre && !p.preDone {
 		switch e["k"] {
 		case "send":
-			if m := AsM(e["m"]); S(m, "t") == "Startup" {
+			if m := AsM(e["m"]); S(m, "t") == "Startup" && p.preMsg == nil {
 				p.preMsg = m
+			} else {
+				p.held = append(p.held, e) // pipelined behind the startup packet: belongs after the preamble
 			}
+		case "eof":
+			p.held = append(p.held, e)
 		case "write":
 			before := len(p.Out)
 			p.bytes(e["b"].([]byte))
@@ -100,6 +105,11 @@ func (p *Projector) Feed(e mem.Ev) {
 			p.Out = p.Out[:before]
 			if p.preDone {
 				p.Out = append(p.Out, M{"k": "preamble", "m": Clean(p.preMsg)})
+				held := p.held
+				p.held = nil
+				for _, h := range held {
+					p.Feed(h)
+				}
 			}
 		}
 		return
@@ -256,6 +266,16 @@ func (p *Projector) abstract(m pgw.Msg) M {
 			out[i] = M{"null": false, "empty": I(c, "len") == 0, "val": canon, "enc": enc}
 		}
 		r["cells"] = out
+		// digest of the raw field bytes (independent of any knowledge about formats)
+		var all []byte
+		for _, raw := range raws {
+			all = append(all, byte(len(raw)>>8), byte(len(raw)))
+			if raw == nil {
+				all = append(all, 0xff)
+			}
+			all = append(all, raw...)
+		}
+		r["rawdig"] = pgw.Dig(all)
 	case 'E', 'N':
 		for _, f := range []string{"sev", "code", "msg", "hint", "detail", "cons", "file", "line", "fn"} {
 			if _, has := r[f]; !has {
